@@ -48,15 +48,15 @@ prop(
 
 prop(
     "C02",
-    rules=["C02-R1", "C02-R2", "C02-R4", "X-EXT@remover", "X-EXT@creator", "X-EXT@grower", "X-EXT@view", "X-EXT@borrow", "X-EXT@other", "C02-R5", "C02-R3", "X-EXT@prim"],
-    mir_rules=[S.rule_creator, S.rule_remover, S.rule_extent, S2.rule_grower, SP.rule_iter_loops, S2.rule_dataptr_primitives, S2.rule_alloc_discipline],
+    rules=["C02-R1", "C02-R2", "C02-R4", "X-EXT@remover", "X-EXT@creator", "X-EXT@grower", "X-EXT@view", "X-EXT@borrow", "X-EXT@other", "C02-R5", "C02-R3", "X-EXT@prim", "C02-R7"],
+    mir_rules=[S.rule_creator, S.rule_remover, S.rule_extent, S2.rule_grower, SP.rule_iter_loops, S2.rule_dataptr_primitives, S2.rule_alloc_discipline, S2.rule_payload_use],
     floors={"C02-R3": 6, "C02-R1": lambda c: 3 * n_storages(c), "C02-R2": lambda c: 4 * n_storages(c), "X-EXT@remover": lambda c: 3 * n_storages(c), "X-EXT@creator": lambda c: n_storages(c), "X-EXT@view": lambda c: 2 * n_storages(c)},
     explanation="Static analysis. Decides: C02-R1 the creator writes the handle and all N components at one index = pre-increment len, component i into column i; "
     "C02-R2 the remover swap_removes all N+1 arrays at the resolved dense index with the pre-decrement len and returns the values moved out of columns 0..N-1 in order; "
     "X-EXT every slice/raw view of an array is cut at the extent it is valid for (len for dense arrays, capacity for slots), fresh at the call; "
     "C02-R3 the DataPtr primitives address what they say: write(i, v) stores at cell i without reading it, swap_remove(i, len) returns cell i and copies exactly cell len-1 into it (read before copy), slice(len) = from_raw_parts(base, len), "
     "and growth carries the old cells over: realloc(self.0, array layout of old_capacity, byte size of the array layout of capacity), or alloc + copy of old_capacity cells of T (typed, or old_capacity*size_of::<T>() bytes) + dealloc with the old layout; "
-    "any other memory move inside DataPtr is reported; C02-R4/R5 readers and expansions use one resolved index for every column of a visit.",
+    "any other memory move inside DataPtr is reported; C02-R4/R5 readers and expansions use one resolved index for every column of a visit; C02-R7 resolve_for (the index every access path uses) is built from the dense component of the resolver's (slot, dense) pair only.",
     not_decided="that columns stay in lock-step over histories (I2/I3); value equality is never computed",
 )
 
@@ -87,12 +87,12 @@ prop(
 
 prop(
     "C09",
-    rules=["C09-R1", "C09-R2", "C09-R3", "C09-R4", "C09-R5", "C09-R6", "C09-R7"],
-    mir_rules=[S.rule_direct_resolver, S.rule_remover, S.rule_creator, S2.rule_grower, SP.rule_funnel, SP.rule_mints, E.rule_conversions, SP.rule_unchecked_conversions],
+    rules=["C09-R1", "C09-R2", "C09-R3", "C09-R4", "C09-R5", "C09-R6", "C09-R7", "C09-R8"],
+    mir_rules=[S.rule_direct_resolver, S.rule_remover, S.rule_creator, S2.rule_grower, SP.rule_funnel, SP.rule_mints, E.rule_conversions, SP.rule_unchecked_conversions, S2.rule_payload_use],
     floors={"C09-R1": lambda c: 5 * n_storages(c), "C09-R2": lambda c: n_storages(c), "C09-R3": lambda c: n_storages(c), "C09-R7": 5},
     explanation="Static analysis. Decides: C09-R1 the direct resolver accepts on exactly one path guarded by {key.version==self.version, dense_index<len}; "
     "C09-R2 every remover stores version<-version.next() unconditionally; C09-R3 creators write only at index old-len and never touch version; C09-R4 every direct handle minted in an expansion carries a version read after the last removal of that visit; "
-    "C09-R6 every API taking a direct key reaches storage only through the direct resolver (to_direct included); C09-R7 EntityDirectAny becomes EntityDirect<A> only on the path guarded by id(key) == A::ARCHETYPE_ID (a direct handle of another archetype never reaches A's resolver).",
+    "C09-R6 every API taking a direct key reaches storage only through the direct resolver (to_direct included); C09-R7 EntityDirectAny becomes EntityDirect<A> only on the path guarded by id(key) == A::ARCHETYPE_ID (a direct handle of another archetype never reaches A's resolver); C09-R8 to_direct mints the direct handle from the dense component of the resolver's pair and the archetype's current version, and returns a resolving direct key unchanged.",
     not_decided="the temporal statement (issued at t, used at t') over histories",
 )
 
@@ -110,8 +110,8 @@ prop(
 
 prop(
     "C04",
-    rules=["C04-R2", "C04-R3", "C04-R4", "C04-R5", "X-WMC", "X-EXT@dropper", "C04-R1", "C04-R7", "C04-R8"],
-    mir_rules=[S.rule_remover, S2.rule_dropper, S2.rule_push_guards, S2.rule_cloner, S2.rule_who_may, S.rule_extent, S2.rule_dataptr_primitives, S2.rule_forbidden_calls, S2.rule_alloc_discipline],
+    rules=["C04-R2", "C04-R3", "C04-R4", "C04-R5", "X-WMC", "X-EXT@dropper", "C04-R1", "C04-R7", "C04-R8", "C10-R1"],
+    mir_rules=[S.rule_remover, S2.rule_dropper, S2.rule_push_guards, S2.rule_cloner, S2.rule_who_may, S.rule_extent, S2.rule_dataptr_primitives, S2.rule_forbidden_calls, S2.rule_alloc_discipline, U.rule_commit_sections],
     floors={"C04-R1": 15, "C04-R2": lambda c: n_storages(c), "C04-R3": lambda c: 5 * n_storages(c), "C04-R4": lambda c: 5 * n_storages(c), "C04-R5": lambda c: n_storages(c), "X-WMC": lambda c: 6 * n_storages(c)},
     explanation="Static analysis. Decides: X-WMC the ownership primitives (write, swap_remove, drop_to, dealloc, grow) are called only by the functions whose role owns them; "
     "C04-R2 the remover moves exactly one value out of each of the N+1 arrays and pairs it with one len decrement; C04-R3 Drop drops cells [0,len) of each column exactly once before freeing each array once with the tracked capacity, "
@@ -119,6 +119,7 @@ prop(
     "C04-R5/C13-R2 clone clones each live cell exactly once into a fresh array; C04-R8 clone takes every column guard before its first allocation, so its documented borrow panic cannot abandon values it has already cloned; "
     "C04-R1 allocator discipline of DataPtr (GlobalAlloc contract): alloc only with the array layout of the capacity argument on a path with sized T and capacity != 0, realloc/dealloc only of self.0 with the array layout of the capacity it was allocated with on a path where that capacity != 0, "
     "the no-op paths only for zero-sized T or capacity 0, the allocator's (null-checked) result is what gets installed, nobody but DataPtr calls the allocator, swap_remove never drops; "
+    "C10-R1 (shared with C10) no creator, remover or grower can be interrupted by a panic between its first and last state write: an interrupted removal leaves a duplicated row (dropped twice later), an interrupted creation a counted row that was never written; "
     "C04-R7 no call to mem::forget, ManuallyDrop::new, *::leak, RefCell::as_ptr, UnsafeCell::get, *::into_raw or zeroed anywhere in gecs or in the specimen expansions.",
     not_decided="exactly-once over all histories additionally needs I2; leak-freedom of user Drop impls; allocator behaviour",
 )
